@@ -676,19 +676,17 @@ func (c *RemoteClient) GetOutputs(ctx context.Context,
 			return nil, errors.Wrap(err, "get tx")
 		}
 
-		if int(outpoint.Index) >= len(tx.TxOut) {
-			return nil, errors.Wrap(err, "invalid index")
-		}
-		outputs[i] = tx.TxOut[outpoint.Index]
-
-		// Check if other outpoints have the same txid.
-		for j := range outpoints[i+1:] {
-			if outpoints[j].Hash.Equal(&outpoint.Hash) {
-				if int(outpoint.Index) >= len(tx.TxOut) {
-					return nil, errors.Wrap(err, "invalid index")
-				}
-				outputs[j] = tx.TxOut[outpoint.Index]
+		// Fill this and any other outpoints with the same txid.
+		for j := i; j < len(outpoints); j++ {
+			if !outpoints[j].Hash.Equal(&outpoint.Hash) {
+				continue
 			}
+
+			if int(outpoints[j].Index) >= len(tx.TxOut) {
+				return nil, fmt.Errorf("invalid index : %d >= %d outputs in %s",
+					outpoints[j].Index, len(tx.TxOut), outpoint.Hash)
+			}
+			outputs[j] = tx.TxOut[outpoints[j].Index]
 		}
 	}
 
